@@ -23,7 +23,7 @@ def make_spec(g, allow):
         second.append((name, cs))
     return dict(cfgs=h.cfgs, execs=h.execs, second=second, flags=set(h.flags), orphan=r.random() < 0.5,
                 mode2=r.choice([(False, ''), (False, 'true'), (True, ''), (False, 'clean')]),
-                skips=r.randint(0, 4), skip_names=skip_sequence(r), sort=r.choice(['-', '0', '1']))
+                skips=r.randint(0, 4), skip_names=skip_sequence(r), sort=r.choice(['-', '0', '1']), count=r.choice([1, 1, 2, 3]))
 
 
 # Tests that call snaps.Skip*: every CALL counts, whoever made it and whatever was skipped before -
@@ -76,14 +76,19 @@ def render(tag, spec):
         w.add('fsput %s %s' % (core.hx(d + '/orphan_file.snap'), core.hx(b'\n[TestOrphan - 1]\nx\n---\n')))
     texec = 0
     call_idx = []
-    for name, calls in spec['execs']:
-        texec += 1
-        call_idx += emit_exec(w, texec, name, calls)
     ci, upd = spec['mode2']
-    w.add(mode_line(ci, upd))
-    for name, calls in spec['second']:
-        texec += 1
-        call_idx += emit_exec(w, texec, name, calls)
+    # go test -count=N: the whole round N times in one process (the first execution records, later ones mostly
+    # pass): every call still has one outcome, and the summary shows the totals of the process
+    for _rep in range(spec.get('count', 1)):
+        if _rep:
+            w.add(mode_line(False, ''))
+        for name, calls in spec['execs']:
+            texec += 1
+            call_idx += emit_exec(w, texec, name, calls)
+        w.add(mode_line(ci, upd))
+        for name, calls in spec['second']:
+            texec += 1
+            call_idx += emit_exec(w, texec, name, calls)
     names = spec.get('skip_names')
     if names is None:
         names = [b'TestSkipped%d' % (s % 2) for s in range(spec['skips'])]
@@ -137,7 +142,7 @@ def render(tag, spec):
             if text.count('orphan_file.snap\n') != 1 or not re.search(r'(?m)^\S* ?1 snapshot file (obsolete|removed)$', text):
                 return 'one obsolete file (orphan_file.snap): the summary must list it once under a header counting 1 file, got %r' % text[:400]
         return None
-    w.add('clean %s - 1' % spec['sort'], ('summary-equals-outcomes', oracle_sum))
+    w.add('clean %s - %d' % (spec['sort'], spec.get('count', 1)), ('summary-equals-outcomes', oracle_sum))
     return w
 
 
